@@ -71,13 +71,19 @@ TypeName(d, f) ==
     [] f.t = "Decimal" -> IF d = "pl" THEN "number" ELSE "decimal"
     [] f.t = "DateTime" -> "date"
     [] OTHER -> IF d = "pl" THEN "varchar2" ELSE "varchar"
+\* Decimal fields: a rule is a pair of limits, each written with b digits before and a digits after the decimal point
+\* (ranges.py:565-571, 641-642: the running maxima over all limits); a column must carry the total number of digits and
+\* the number of fractional digits that every value of the rule can be written with
+MaxOf(S) == CHOOSE m \in S : \A o \in S : m >= o
+FracDigits(f) == MaxOf({f.limits[i][2] : i \in 1..Len(f.limits)})
+TotalDigits(f) == MaxOf({f.limits[i][1] : i \in 1..Len(f.limits)}) + FracDigits(f)
 \* sql.py:1394-1439, one field
 AddColumn ==
   /\ idx < Len(fields)
   /\ LET f == fields[idx + 1] IN
      columns' = Append(columns, [name |-> f.name, quoted |-> Keyword(dialect, f.name), type |-> TypeName(dialect, f),
                                  notnull |-> ~f.empty,
-                                 size |-> IF f.t = "Decimal" THEN <<f.digits, f.frac>> ELSE IF f.t \in {"Integer", "DateTime"} THEN <<>>
+                                 size |-> IF f.t = "Decimal" THEN <<TotalDigits(f), FracDigits(f)>> ELSE IF f.t \in {"Integer", "DateTime"} THEN <<>>
                                           ELSE f.len])
   /\ idx' = idx + 1 /\ UNCHANGED <<dialect, fields>>
 Next == AddColumn
